@@ -7,7 +7,8 @@ import sys
 from pathlib import Path
 
 V = Path("/verif")
-R = "/tmp/seedrepo"
+import os
+R = os.environ.get("SEEDREPO", "/tmp/seedrepo")
 
 
 def sh(cmd, cwd=None, timeout=3000):
